@@ -38,6 +38,10 @@ def gen(ctx: Ctx, n):
         cache = G.random_cache(rng, keys)
         if rng.random() < .3:
             cache['timestamp'] = rng.choice([0, 0, 1, vmrun.NOW])
+        if rng.random() < .3:
+            # embedder keys that merely resemble the interpreter's own control key ('returned'): parts of it, one-letter names
+            for k_ in rng.sample(['r', 't', 'e', 'd', 'ret', 'turn', 'return', 'urn', 'eturned', 'returne', 'returned2', 'Returned', 'n'], rng.choice([1, 2, 3])):
+                cache[k_] = rng.choice([b'v', V.rbytes(rng, 3), 7, 'text'])
         old = G.KEY_POOL
         try:
             G.KEY_POOL = [spelled_keys(rng) for _ in range(6)] + [b'a', b'x', b'timestamp', b'sigfield1']
